@@ -50,6 +50,12 @@ def run(ctx):
     crlf_texts = ["a\r\nb", "\r\n", "\r\n\r\n", "a\r\n\r\nb", "\n\r\n", "\r\r\n", "ab\r\ncd\r\n", "\r", "a\rb", "\t\n\ta"]
     for p in ("'\n'", "any", "whitespace", "line start any", "line end", "not 'a'", "'\n' maybe 'b'", "in '\n', 'b'", "at least 1 whitespace", "line start", "'\r' or '\n'"):
         extra.append({"src": "find all " + p, "texts": crlf_texts})
+    # caseless literals: only LETTERS have two cases - punctuation, digits, control bytes and the characters 0x20 away from them stand for themselves
+    cl_texts = ["x{i} X[I] x[i}", "@ ` A a", "k\n k* K*", "a-b a\rb A-B", "1 ! 0 \x10", "_ \x7f ^ ~", "[ { \\ | ] }", "ab AB aB Ab a\x02"]
+    for lit in ("x[i]", "@", "k*", "a-b", "1", "0", "_", "^", "[", "\\\\", "]", "ab", "a\"b", " "):
+        extra.append({"src": "find all caseless '%s'" % lit, "texts": cl_texts})
+        extra.append({"src": "find all (caseless '%s') or 'k'" % lit, "texts": cl_texts})
+        extra.append({"src": "replace all caseless '%s' with '(' value ')'" % lit, "texts": cl_texts})
     # several stored patterns with DIFFERENT predicates asked about the same piece of text within one attempt (alternation, nesting, one after the other):
     # each verdict belongs to its own predicate and its own candidate
     preds = ["matchLength == 1", "matchLength == 2", "matchLength > 1", "match == 'a'", "match != 'ab'", "match < 'b'", "false", "true", "(match % 2) == 0", "(match % 3) == 0"]
